@@ -43,7 +43,22 @@ def draw_selection(d: Draw, spec: dict, dname: str, p_R: float = 0.35, p_X: floa
     sel: Dict[str, Any] = {}
     R = None
     aliasable_roots = sorted(n for n in g["roots"] if n[0] in ("s", "p"))
-    if aliasable_roots and d.bool(p_R):
+    # roots below which a switched node lies while the producer of its flag does not: the flag is then simply not there
+    dg_ = spec["dags"][dname]
+    by_out = {o: i for i, s_ in enumerate(dg_["stmts"]) for o in s_["out"]}
+    cut_roots = []
+    if aliasable_roots:
+        from .ref import gen_descendants
+        desc = gen_descendants(g["succ"])
+        for i, s_ in enumerate(dg_["stmts"]):
+            fl = s_.get("flag") if s_["k"] == "call" else None
+            if fl and fl[0] == "v" and fl[1] in by_out:
+                q = ("s", by_out[fl[1]])
+                cut_roots += [r for r in aliasable_roots if ("s", i) in desc[r] and q not in desc[r] and q != r]
+    if cut_roots and d.bool(0.5 if p_R else 0.0):
+        R = [d.pick(sorted(set(cut_roots)))]
+        sel["R"] = [alias_for(d, spec, dname, n) for n in R]
+    elif aliasable_roots and d.bool(p_R):
         R = d.sample(aliasable_roots, d.int(1, len(aliasable_roots)))
         if p_invalid and d.bool(p_invalid):
             non = [n for n in stmts if n not in g["roots"]]
